@@ -36,9 +36,11 @@ SHARDS = {"quick": 6, "thorough": 16}
 # where many 2a cases end in a resolver exception before a preview exists
 MIN_EVALS = {"quick": 60, "thorough": 2000}
 FLOORS = {"quick": {"resolve_runs": 60, "cmp_preview_applied": 12, "cmp_preview_reopened": 12, "cmp_changes_basis": 5,
-                    "cmp_tt_iter_changes": 3, "cmp_transform_preview": 5, "malformed_tree_unchanged": 2, "resolver_passes": 40, "pass_progress": 25},
+                    "cmp_tt_iter_changes": 3, "cmp_transform_preview": 5, "malformed_tree_unchanged": 2, "resolver_passes": 40, "pass_progress": 25,
+                    "raw_conflict_reference": 100, "raw_ref_duplicate": 10},
           "thorough": {"resolve_runs": 2000, "cmp_preview_applied": 400, "cmp_preview_reopened": 400, "cmp_changes_basis": 150,
-                       "cmp_tt_iter_changes": 100, "cmp_transform_preview": 150, "malformed_tree_unchanged": 60, "resolver_passes": 1500, "pass_progress": 800}}
+                       "cmp_tt_iter_changes": 100, "cmp_transform_preview": 150, "malformed_tree_unchanged": 60, "resolver_passes": 1500, "pass_progress": 800,
+                       "raw_conflict_reference": 4000, "raw_ref_duplicate": 400, "raw_ref_parent_loop": 100, "raw_ref_missing_parent": 50}}
 ASSUMPTIONS = [
     "immediate refusals of wrong API use while building the script (DuplicateKey, KeyError, ValueError, CantMoveRoot, OS-level EEXIST/EISDIR on a second create) are counted, not judged; "
     "any other exception while scheduling an op abandons the case (counted as op-exception)",
@@ -726,7 +728,15 @@ def apply_mechanism(e, tt, shapes, before):
 
         return "%s:%s" % (_e.errorcode.get(getattr(e, "errno", None), "E?"), R.attribute("rename", shapes))
     if name == "InconsistentDelta":
+        import re
+
         reason = str(getattr(e, "reason", "") or str(e).rpartition("reason:")[2]).strip().rstrip(".").lower().replace(" ", "-")[:40]
+        m = re.search(r"""involving "b?['"](.*?)['"]\"""", str(e))
+        path = m.group(1) if m else None
+        if path is not None and path in before["view"] and before["view"][path].get("kind") is None and "already-occu" in reason:
+            # the name is held by a versioned entry that is missing on disk: such entries get no trans id (children come from os.listdir),
+            # so no 'duplicate' can be seen
+            return "%s:%s" % (reason, "name-held-by-versioned-entry-missing-on-disk-unknown-to-the-transform")
         return "%s:%s" % (reason, R.attribute("delta", shapes))
     tb = traceback.extract_tb(e.__traceback__)
     if any(fs.name == "apply_deletions" for fs in tb):
@@ -860,7 +870,7 @@ def report_view_diff(ctx, prefix, what, snap, after_view, before_view):
         touched = snap.get("touched")
         if touched is not None and lab not in NAMED_LABELS and not lab.endswith(NAMED_LABELS) \
                 and not any(q in touched or any(q.startswith(t + "/") for t in touched if t) for q in paths):
-            key = "%s:path-not-touched-by-the-transform" % lab
+            key = "path-not-touched-by-the-transform"
         else:
             key = with_mechanism(lab, snap)
         ctx.fail("%s:%s" % (prefix, key), "%s (%s): %r" % (what, lab, diff_dicts(sub, sub2, "preview", "applied")), None)
@@ -883,7 +893,7 @@ def changes_mechanism(lab, snap, mine, real, git, views):
                 hit = [q for v in views for q, d in v.items() if d.get("file_id") == k]
                 paths.update(hit or ["?"])
         if paths and "?" not in paths and not any(q in touched or any(q.startswith(t + "/") for t in touched if t) for q in paths):
-            return "%s:path-not-touched-by-the-transform" % lab
+            return "path-not-touched-by-the-transform"
     return with_mechanism(lab, snap)
 
 
@@ -892,12 +902,12 @@ def with_mechanism(lab, snap):
     shape that explains it (or 'unattributed')."""
     if lab.endswith(NAMED_LABELS) or lab in NAMED_LABELS:
         return lab
-    return "%s:%s" % (lab, R.attribute("preview", snap.get("shapes") or ()))
+    mech = R.attribute("preview", snap.get("shapes") or ())
+    # attributed: the mechanism is the key (which aspect differed is in the message); unattributed: keep the aspect, it is all there is
+    return mech if mech != "unattributed" else "%s:unattributed" % lab
 
 
 def judge_applied(ctx, p, wt, git, label, before, orig, snap):
-    from breezy.bzr.inventorytree import InterInventoryTree
-    from breezy.tree import InterTree
     from breezy.workingtree import WorkingTree
 
     try:
@@ -946,6 +956,34 @@ def judge_applied(ctx, p, wt, git, label, before, orig, snap):
     def drop(d):
         return {k: v for k, v in d.items() if k not in skip}
 
+    try:
+        _judge_changes(ctx, p, wt2, git, label, before, orig, snap, after_view, roots, drop)
+    except (KeyboardInterrupt, SystemExit):
+        raise
+    except Exception as e:
+        if "/breezy/" not in "".join(fs.filename for fs in traceback.extract_tb(e.__traceback__)):
+            raise
+        ctx.fail("applied:%s:tree-unreadable:%s@%s:%s" % (label, type(e).__name__, _where(e.__traceback__), R.attribute("other", snap.get("shapes") or ())),
+                 "iter_changes of the working tree after apply raised %r" % (e,), {"traceback": traceback.format_exc()[-1500:]})
+    if snap["kinds"] is not None:
+        disk = observe.snap_disk(p)
+        ctx.count("cmp_disk_kinds")
+        bad = {}
+        for q, k in snap["kinds"].items():
+            dk = disk.get(q, (None,))[0]
+            if k != dk:
+                # two trans ids (one of them without contents) share the final path: which one a path lookup finds is unspecified
+                lab = "two-trans-ids-one-final-path" if q in snap.get("ambiguous", ()) else "disk-kind"
+                bad.setdefault(lab, []).append((q, "preview=%r" % (k,), "disk=%r" % (dk,)))
+        for lab, items in sorted(bad.items()):
+            ctx.fail("preview-vs-applied:%s:%s" % (label, with_mechanism(lab, snap)), "preview.kind(path) != kind on disk after apply: %r" % (items[:4],), None)
+
+
+def _judge_changes(ctx, p, wt2, git, label, before, orig, snap, after_view, roots, drop):
+    from breezy.bzr.inventorytree import InterInventoryTree
+    from breezy.tree import InterTree
+    from breezy.workingtree import WorkingTree
+
     if snap["ch_basis"] is not None:
         with wt2.lock_read():
             basis = wt2.basis_tree()
@@ -985,18 +1023,7 @@ def judge_applied(ctx, p, wt, git, label, before, orig, snap):
         if drop(mine) != drop(real):
             ctx.fail("preview-vs-applied:%s:%s" % (label, changes_mechanism("iter_changes-fast", snap, drop(mine), drop(real), git, (before["view"], after_view))),
                      "preview.iter_changes(transform's tree) != changes(original tree -> applied tree): %r" % (diff_dicts(drop(mine), drop(real), "preview", "applied"),), None)
-    if snap["kinds"] is not None:
-        disk = observe.snap_disk(p)
-        ctx.count("cmp_disk_kinds")
-        bad = {}
-        for q, k in snap["kinds"].items():
-            dk = disk.get(q, (None,))[0]
-            if k != dk:
-                # two trans ids (one of them without contents) share the final path: which one a path lookup finds is unspecified
-                lab = "two-trans-ids-one-final-path" if q in snap.get("ambiguous", ()) else "disk-kind"
-                bad.setdefault(lab, []).append((q, "preview=%r" % (k,), "disk=%r" % (dk,)))
-        for lab, items in sorted(bad.items()):
-            ctx.fail("preview-vs-applied:%s:%s" % (label, with_mechanism(lab, snap)), "preview.kind(path) != kind on disk after apply: %r" % (items[:4],), None)
+
 
 
 def replay_transform_preview(ctx, orig, ops, refusals, res, git, label, p, before_view, shapes=(), touched=None):
